@@ -42,9 +42,23 @@ func GenCase(t *rapid.T, bias Bias, stratum int) Case {
 	if bias == BiasOrder {
 		maxParts = 2
 	}
+	names := []string{"ta", "tb"}
+	lookalike := nTopics == 2 && bias != BiasOrder && rapid.IntRange(0, 5).Draw(t, "lookalikeTopics") == 0
+	if lookalike {
+		// topic names that differ by trailing digits, one of them with partition numbers of two digits: "t1"+"0" and
+		// "t"+"10" must stay different topic-partitions wherever the writer keys by both
+		names = []string{"t", "t1"}
+	}
 	for i := 0; i < nTopics; i++ {
-		c.Topics = append(c.Topics, []string{"ta", "tb"}[i])
-		c.Partitions = append(c.Partitions, rapid.IntRange(1, maxParts).Draw(t, "partitions"))
+		c.Topics = append(c.Topics, names[i])
+		n := rapid.IntRange(1, maxParts).Draw(t, "partitions")
+		if lookalike && i == 0 {
+			n = rapid.IntRange(11, 13).Draw(t, "manyPartitions")
+		}
+		c.Partitions = append(c.Partitions, n)
+	}
+	if lookalike {
+		c.Balancer = "roundrobin"
 	}
 	maxMsg := 120
 	nCallers := rapid.IntRange(1, 4).Draw(t, "callers")
